@@ -47,12 +47,21 @@ CONFIGS = {
     "nostd-simd-ssse3": dict(feat="tlsh/simd", rustflags="-C target-feature=+ssse3"),
     "nostd-simd-sse41": dict(feat="tlsh/simd", rustflags="-C target-feature=+sse4.1"),
     "nostd-simd-avx2": dict(feat="tlsh/simd", rustflags="-C target-feature=+avx2"),
+    # feature interactions: combinations no single-purpose configuration above has
+    "mix-a": dict(feat="easy std tlsh/simd tlsh/detect-features tlsh/opt-embedded-default tlsh/opt-low-memory-buckets "
+                       "tlsh/opt-low-memory-hex-str-decode-quarter-table"),
+    "mix-b": dict(feat="easy std tlsh/simd tlsh/unsafe tlsh/opt-pearson-table-double tlsh/opt-dist-qratios-table "
+                       "tlsh/opt-low-memory-hex-str-encode-min-table tlsh/opt-low-memory-hex-str-decode-half-table",
+                  rustflags="-C target-feature=+avx2"),
+    "mix-c": dict(feat="easy std tlsh/opt-simd-body-comparison tlsh/simd-per-arch tlsh/opt-dist-length-table "
+                       "tlsh/opt-low-memory-buckets tlsh/opt-low-memory-hex-str-decode-min-table "
+                       "tlsh/opt-low-memory-hex-str-encode-half-table", rustflags="-C target-feature=+sse4.1"),
     "strict": dict(feat="easy std strict tlsh/opt-default tlsh/simd tlsh/detect-features"),
     "serde": dict(feat="easy std serde tlsh/opt-default tlsh/simd tlsh/detect-features"),
     "serde-strict": dict(feat="easy std serde strict tlsh/opt-default tlsh/simd tlsh/detect-features"),
     "serde-buffered-strict": dict(feat="easy std serde strict tlsh/serde-buffered tlsh/opt-default tlsh/simd tlsh/detect-features"),
 }
-HEXSIMD = {"nostd-simd-sse2", "nostd-simd-ssse3", "nostd-simd-sse41", "nostd-simd-avx2", "default", "default-unsafe", "simd-static-sse2", "simd-static-ssse3", "simd-static-sse41",
+HEXSIMD = {"mix-a", "mix-b", "nostd-simd-sse2", "nostd-simd-ssse3", "nostd-simd-sse41", "nostd-simd-avx2", "default", "default-unsafe", "simd-static-sse2", "simd-static-ssse3", "simd-static-sse41",
            "simd-static-avx2", "strict", "serde", "serde-strict", "serde-buffered-strict"}
 for _n, _c in CONFIGS.items():
     if _n in HEXSIMD:
@@ -60,7 +69,7 @@ for _n, _c in CONFIGS.items():
 # the configurations whose results must be bit-identical (C07)
 MATRIX = ["default", "default-unsafe", "naive", "opt-default", "embedded", "lowmem-half", "lowmem-quarter",
           "lowmem-min", "simd-static-sse2", "simd-static-ssse3", "simd-static-sse41", "simd-static-avx2",
-          "naive-unsafe", "nostd"]
+          "naive-unsafe", "nostd", "mix-a", "mix-b", "mix-c"]
 
 
 class ToolError(Exception):
